@@ -596,10 +596,14 @@ package mqtt
 // In-flight housekeeping and redelivery (C08, C09, C25)
 // ======================================================================================
 // every element of the listing is a stored record, found under its own packet id
+// (trusted: the map enumeration and sort.Slice; the comparator it sorts with is proved to be creation-time order, GetAll$1 below)
 // verif:func mqtt.Inflight.GetAll trusted
 //@ requires C32-lock-not-held-by-this-goroutine: i.RWMutex.lheld == 0
 //@ ensures C32-lock-released-on-return: i.RWMutex.lheld == 0
 //@ ensures forall j int :: 0 <= j && j < len(r0) ==> has(i.internal, r0[j].PacketID) && i.internal[r0[j].PacketID] == r0[j]
+//@ ensures only-held-back-when-asked: immediate ==> (forall j int :: 0 <= j && j < len(r0) ==> r0[j].Expiry < 0)
+//@ ensures complete: forall k uint16 :: has(i.internal, k) && (!immediate || i.internal[k].Expiry < 0) ==> (exists j int :: 0 <= j && j < len(r0) && r0[j].PacketID == k)
+//@ ensures sorted-by-the-comparator: forall a int, b int :: 0 <= a && a < b && b < len(r0) ==> r0[a].Created <= r0[b].Created
 
 // verif:def expiredP(p Packet, now int64) bool = p.ProtocolVersion == 5 && p.Expiry > 0 && p.Expiry < now
 // verif:def enforcedP(p Packet, now int64, max int64) bool = max > 0 && now - p.Created > max
@@ -756,9 +760,11 @@ package mqtt
 //@ ensures cl.State.Inflight == old(cl.State.Inflight)
 // verif:func mqtt.Server.processAuth trusted modifies=all
 //@ ensures cl.State.Inflight == old(cl.State.Inflight)
-// verif:func mqtt.Inflight.NextImmediate trusted
+// verif:func mqtt.Inflight.NextImmediate
 //@ requires C32-lock-not-held-by-this-goroutine: i.RWMutex.lheld == 0
 //@ ensures C32-lock-released-on-return: i.RWMutex.lheld == 0
+//@ ensures C12-the-earliest-created-held-back-message-is-next: r1 ==> r0.Expiry < 0 && has(i.internal, r0.PacketID) && i.internal[r0.PacketID] == r0 && (forall k uint16 :: has(i.internal, k) && i.internal[k].Expiry < 0 ==> r0.Created <= i.internal[k].Created)
+//@ ensures C12-none-only-if-nothing-is-held-back: !r1 ==> (forall k uint16 :: has(i.internal, k) ==> i.internal[k].Expiry >= 0)
 // verif:def validDispatch(s *Server, cl *Client) bool = validClPub(cl) && validSrv(s) && s.loop != nil && s.loop.willDelayed != nil && retainOK(s) && cl.State.Subscriptions != nil && cl.State.Subscriptions.internal != nil && s.Options.Capabilities.MaximumQos <= 2 && !has(ifl(cl), 0)
 
 // verif:func mqtt.Server.processPacket modifies=all
